@@ -406,7 +406,109 @@ theorem up_stepEncoder (E D : Spec.Rfc4493.BlockFn) (sys : Sys) (pc : Nat) (p : 
     | exact LS.quiet rfl rfl rfl rfl (by simp [Book.heldAll, upBook, heldUp])
     | exact LS.reset _ rfl rfl rfl rfl (by simp [Book.heldAll, upBook, heldUp])
 
-/-! ### every step preserves both invariants -/
+/-! ### the join book: a DevNonce leads to at most one key change -/
+
+def heldJn (cfg : Config) : Thread → Option (Bytes × Nat)
+  | .join s => if s.pc = 4 ∧ cfg.nonceCheckOff = false then some (s.dev.eui, s.p.joinReq.devNonce) else none
+  | _ => none
+
+/-- held: the join handler between its nonce insert and the key change; out: key changes made;
+    issued: the nonce table itself (primary key (device, nonce)); no epochs. -/
+def jnBook (cfg : Config) : Book := ⟨heldJn cfg, fun s => s.keyedJoins, fun s => s.db.nonces, fun _ => []⟩
+
+theorem nonces_advance {db db' : DB} {e : Bytes} {f : Nat} {kw : Bool} (h : db.advanceFCntUp e f kw = some db') : db'.nonces = db.nonces := by
+  unfold DB.advanceFCntUp at h; split at h <;> cases h; rfl
+theorem nonces_next {db db' : DB} {e : Bytes} {f : Nat} (h : db.nextFCntDn e = some (db', f)) : db'.nonces = db.nonces := by
+  unfold DB.nextFCntDn at h; split at h
+  · cases h
+  · simp only [Option.some.injEq, Prod.mk.injEq] at h; obtain ⟨rfl, _⟩ := h; rfl
+theorem nonces_updateDevice {db db' : DB} {d : Device} (h : db.updateDevice d = some db') : db'.nonces = db.nonces := by
+  unfold DB.updateDevice at h; split at h <;> cases h; rfl
+theorem nonces_updateState {db db' : DB} {d : Device} (h : db.updateState d = some db') : db'.nonces = db.nonces := by
+  unfold DB.updateState at h; split at h <;> cases h; rfl
+theorem nonces_addInbox {db db' : DB} {r : InRow} (h : db.addInbox r = some db') : db'.nonces = db.nonces := by
+  unfold DB.addInbox at h; split at h <;> cases h; rfl
+theorem nonces_addOutbox (db : DB) (m : OutRow) : ((db.addOutbox m).getD db).nonces = db.nonces := by
+  unfold DB.addOutbox; split <;> rfl
+
+theorem jn_stepUplink (cfg : Config) (E : Spec.Rfc4493.BlockFn) (sys : Sys) (s : UpSt) (fault : Bool) :
+    LS (jnBook cfg) sys (.uplink s) (stepUplink E sys s fault).1 (stepUplink E sys s fault).2 := by
+  unfold stepUplink
+  simp only []
+  split
+  all_goals (repeat' split)
+  all_goals first
+    | exact LS.quiet rfl rfl rfl rfl (by simp [Book.heldAll, jnBook, heldJn])
+    | (rename_i h; exact LS.quiet rfl (nonces_advance h) rfl rfl (by simp [Book.heldAll, jnBook, heldJn]))
+    | (rename_i h _; exact LS.quiet rfl (nonces_advance h) rfl rfl (by simp [Book.heldAll, jnBook, heldJn]))
+    | (rename_i h; exact LS.quiet rfl (nonces_addInbox h) rfl rfl (by simp [Book.heldAll, jnBook, heldJn]))
+    | (rename_i h _; exact LS.quiet rfl (nonces_addInbox h) rfl rfl (by simp [Book.heldAll, jnBook, heldJn]))
+
+theorem jn_stepEncoder (cfg : Config) (E D : Spec.Rfc4493.BlockFn) (sys : Sys) (pc : Nat) (p : PHY) (c : Ctx) (b : Bytes) (fault : Bool) :
+    LS (jnBook cfg) sys (.encoder pc p c b) (stepEncoder E D sys pc p c b fault).1 (stepEncoder E D sys pc p c b fault).2 := by
+  unfold stepEncoder
+  simp only []
+  repeat' split
+  all_goals first
+    | exact LS.quiet rfl rfl rfl rfl (by simp [Book.heldAll, jnBook, heldJn])
+    | (rename_i h _ _ _; exact LS.quiet rfl (nonces_updateState h) rfl rfl (by simp [Book.heldAll, jnBook, heldJn]))
+    | (rename_i h _ _; exact LS.quiet rfl (nonces_updateState h) rfl rfl (by simp [Book.heldAll, jnBook, heldJn]))
+    | (rename_i h _ _ _ _; exact LS.quiet rfl (nonces_next h) rfl rfl (by simp [Book.heldAll, jnBook, heldJn]))
+    | (rename_i h _ _ _; exact LS.quiet rfl (nonces_next h) rfl rfl (by simp [Book.heldAll, jnBook, heldJn]))
+    | (rename_i h _ _; exact LS.quiet rfl (nonces_next h) rfl rfl (by simp [Book.heldAll, jnBook, heldJn]))
+
+theorem jn_stepJoin (cfg : Config) (E : Spec.Rfc4493.BlockFn) (sys : Sys) (s : JoinSt) (fault : Bool) :
+    LS (jnBook cfg) sys (.join s) (stepJoin E cfg sys s fault).1 (stepJoin E cfg sys s fault).2 := by
+  unfold stepJoin
+  simp only []
+  split
+  all_goals (repeat' split)
+  all_goals first
+    | ((refine LS.quiet rfl rfl rfl ?_ ?_ <;> simp_all [Book.heldAll, jnBook, heldJn]); done)
+    | ((refine LS.drop rfl rfl rfl ?_ <;> simp_all [Book.heldAll, jnBook, heldJn]); done)
+    | skip
+  · -- the nonce insert succeeded
+    rename_i hoff _ _ db hadd
+    have hpc : s.pc = 3 := by assumption
+    have hon : cfg.nonceCheckOff = false := by simpa using hoff
+    unfold DB.addNonce at hadd
+    split at hadd
+    · cases hadd
+    · rename_i hfresh
+      cases hadd
+      refine LS.issue s.dev.eui s.p.joinReq.devNonce rfl rfl rfl ?_ (Or.inl ?_) ?_
+      · simp [jnBook, heldJn, hpc]
+      · simp [Book.heldAll, jnBook, heldJn, hon]
+      · have : (s.dev.eui, s.p.joinReq.devNonce) ∉ sys.db.nonces := by simpa using hfresh
+        exact this
+  · rename_i hupd hoff _
+    have hpc : s.pc = 4 := by assumption
+    refine LS.quiet ?_ (nonces_updateDevice hupd) rfl ?_ ?_
+    · simp [jnBook, hoff]
+    · simp [jnBook, heldJn, hoff]
+    · simp [Book.heldAll, jnBook, heldJn]
+  · rename_i hupd hoff _
+    have hpc : s.pc = 4 := by assumption
+    refine LS.quiet ?_ (nonces_updateDevice hupd) rfl ?_ ?_
+    · simp [jnBook, hoff]
+    · simp [jnBook, heldJn, hoff]
+    · simp [Book.heldAll, jnBook, heldJn]
+  · rename_i hupd hoff _
+    have hpc : s.pc = 4 := by assumption
+    have hon : cfg.nonceCheckOff = false := by simpa using hoff
+    refine LS.emit (s.dev.eui, s.p.joinReq.devNonce) ?_ (nonces_updateDevice hupd) rfl ?_ ?_
+    · simp [jnBook, hon]
+    · simp [jnBook, heldJn, hpc, hon]
+    · simp [Book.heldAll, jnBook, heldJn]
+  · rename_i hupd hoff _
+    have hpc : s.pc = 4 := by assumption
+    have hon : cfg.nonceCheckOff = false := by simpa using hoff
+    refine LS.emit (s.dev.eui, s.p.joinReq.devNonce) ?_ (nonces_updateDevice hupd) rfl ?_ ?_
+    · simp [jnBook, hon]
+    · simp [jnBook, heldJn, hpc, hon]
+    · simp [Book.heldAll, jnBook, heldJn]
+
+/-! ### every step preserves the invariants -/
 
 theorem threads_stepUplink (E : Spec.Rfc4493.BlockFn) (sys : Sys) (s : UpSt) (fault : Bool) :
     (stepUplink E sys s fault).1.threads = sys.threads := by
@@ -440,30 +542,37 @@ structure Book.Ok (B : Book) : Prop where
   out_fob : ∀ (s : Sys) (f : List (Bytes × FobEntry)) (sc : List Bytes), B.out { s with fob := f, scheduled := sc } = B.out s
   iss_fob : ∀ (s : Sys) (f : List (Bytes × FobEntry)) (sc : List Bytes), B.issued { s with fob := f, scheduled := sc } = B.issued s
   res_fob : ∀ (s : Sys) (f : List (Bytes × FobEntry)) (sc : List Bytes), B.resets { s with fob := f, scheduled := sc } = B.resets s
-  out_db : ∀ (s : Sys) (db : DB), B.out { s with db := db } = B.out s
-  iss_db : ∀ (s : Sys) (db : DB), B.issued { s with db := db } = B.issued s
-  res_db : ∀ (s : Sys) (db : DB), B.resets { s with db := db } = B.resets s
+  out_db : ∀ (s : Sys) (m : OutRow), B.out { s with db := (s.db.addOutbox m).getD s.db } = B.out s
+  iss_db : ∀ (s : Sys) (m : OutRow), B.issued { s with db := (s.db.addOutbox m).getD s.db } = B.issued s
+  res_db : ∀ (s : Sys) (m : OutRow), B.resets { s with db := (s.db.addOutbox m).getD s.db } = B.resets s
   done : B.held .done = none
   notify : ∀ p c, B.held (.notify p c) = none
   sendAt : ∀ c, B.held (.sendAt c) = none
   sendDone : ∀ e, B.held (.sendDone e) = none
   enc0 : ∀ p c b, B.held (.encoder 0 p c b) = none
   up0 : ∀ s, s.pc = 0 → B.held (.uplink s) = none
-  join0 : ∀ s, B.held (.join s) = none
+  join0 : ∀ s, s.pc = 0 → B.held (.join s) = none
 
 theorem dnBook_ok : dnBook.Ok :=
   { out_thr := fun _ _ => rfl, iss_thr := fun _ _ => rfl, res_thr := fun _ _ => rfl,
     out_fob := fun _ _ _ => rfl, iss_fob := fun _ _ _ => rfl, res_fob := fun _ _ _ => rfl,
     out_db := fun _ _ => rfl, iss_db := fun _ _ => rfl, res_db := fun _ _ => rfl,
     done := rfl, notify := fun _ _ => rfl, sendAt := fun _ => rfl, sendDone := fun _ => rfl,
-    enc0 := fun p c b => held_enc0 p c b, up0 := fun _ _ => rfl, join0 := fun _ => rfl }
+    enc0 := fun p c b => held_enc0 p c b, up0 := fun _ _ => rfl, join0 := fun _ _ => rfl }
 
 theorem upBook_ok : upBook.Ok :=
   { out_thr := fun _ _ => rfl, iss_thr := fun _ _ => rfl, res_thr := fun _ _ => rfl,
     out_fob := fun _ _ _ => rfl, iss_fob := fun _ _ _ => rfl, res_fob := fun _ _ _ => rfl,
     out_db := fun _ _ => rfl, iss_db := fun _ _ => rfl, res_db := fun _ _ => rfl,
     done := rfl, notify := fun _ _ => rfl, sendAt := fun _ => rfl, sendDone := fun _ => rfl,
-    enc0 := fun _ _ _ => rfl, up0 := fun s h => by simp [upBook, heldUp, h], join0 := fun _ => rfl }
+    enc0 := fun _ _ _ => rfl, up0 := fun s h => by simp [upBook, heldUp, h], join0 := fun _ _ => rfl }
+
+theorem jnBook_ok (cfg : Config) : (jnBook cfg).Ok :=
+  { out_thr := fun _ _ => rfl, iss_thr := fun _ _ => rfl, res_thr := fun _ _ => rfl,
+    out_fob := fun _ _ _ => rfl, iss_fob := fun _ _ _ => rfl, res_fob := fun _ _ _ => rfl,
+    out_db := fun _ _ => rfl, iss_db := fun s m => nonces_addOutbox s.db m, res_db := fun _ _ => rfl,
+    done := rfl, notify := fun _ _ => rfl, sendAt := fun _ => rfl, sendDone := fun _ => rfl,
+    enc0 := fun _ _ _ => rfl, up0 := fun _ _ => rfl, join0 := fun s h => by simp [jnBook, heldJn, h] }
 
 /-- One step of any thread preserves the circulation invariant of a book, given the local effects
     of the three step functions for that book. -/
@@ -518,23 +627,27 @@ theorem k_step (B : Book) (ok : B.Ok) (E D : Spec.Rfc4493.BlockFn) (cfg : Config
     | encoder pc p c b => exact key _ (hE pc p c b) (threads_stepEncoder E D sys pc p c b fault)
     | done => exact key (sys, [.done]) (hq _ _ rfl rfl rfl ok.done (by simp [Book.heldAll, ok.done])) rfl
 
-/-- The counter invariants together with both circulation invariants. -/
-structure KInv (s : Sys) : Prop where
+/-- The counter invariants together with the three circulation invariants. -/
+structure KInv (cfg : Config) (s : Sys) : Prop where
   c : CInv s
   dn : K dnBook s
   up : K upBook s
+  jn : K (jnBook cfg) s
 
-theorem kinv_init (db : DB) : KInv (Sys.init db) :=
+theorem kinv_init (cfg : Config) (db : DB) : KInv cfg (Sys.init db) :=
   ⟨CInv.init db, by intro x _; simp [Book.circ, Book.heldAll, dnBook, Sys.init],
-   by intro x _; simp [Book.circ, Book.heldAll, upBook, Sys.init]⟩
+   by intro x _; simp [Book.circ, Book.heldAll, upBook, Sys.init],
+   by intro x _; simp [Book.circ, Book.heldAll, jnBook, Sys.init]⟩
 
-theorem kinv_step (E D : Spec.Rfc4493.BlockFn) (cfg : Config) (sys : Sys) (i : Nat) (fault : Bool) (h : KInv sys) :
-    KInv (step E D cfg sys i fault) :=
+theorem kinv_step (E D : Spec.Rfc4493.BlockFn) (cfg : Config) (sys : Sys) (i : Nat) (fault : Bool) (h : KInv cfg sys) :
+    KInv cfg (step E D cfg sys i fault) :=
   ⟨cinv_step E D cfg sys i fault h.c,
    k_step dnBook dnBook_ok E D cfg sys i fault (dn_stepUplink E sys · fault) (dn_stepJoin E cfg sys · fault)
      (fun pc p c b => dn_stepEncoder E D sys pc p c b fault h.c) h.dn,
    k_step upBook upBook_ok E D cfg sys i fault (fun s => up_stepUplink E sys s fault h.c) (up_stepJoin E cfg sys · fault)
-     (fun pc p c b => up_stepEncoder E D sys pc p c b fault) h.up⟩
+     (fun pc p c b => up_stepEncoder E D sys pc p c b fault) h.up,
+   k_step (jnBook cfg) (jnBook_ok cfg) E D cfg sys i fault (jn_stepUplink cfg E sys · fault) (jn_stepJoin cfg E sys · fault)
+     (fun pc p c b => jn_stepEncoder cfg E D sys pc p c b fault) h.jn⟩
 
 theorem k_drop_threads (B : Book) (ok : B.Ok) {s : Sys} (hk : K B s) (f : List (Bytes × FobEntry)) (sc : List Bytes) :
     K B { s with fob := f, scheduled := sc, threads := [] } := by
@@ -543,15 +656,16 @@ theorem k_drop_threads (B : Book) (ok : B.Ok) {s : Sys} (hk : K B s) (f : List (
   · exact (ok.iss_thr { s with fob := f, scheduled := sc } []).trans (ok.iss_fob s f sc)
   · exact (ok.res_thr { s with fob := f, scheduled := sc } []).trans (ok.res_fob s f sc)
 
-theorem kinv_settle (E D : Spec.Rfc4493.BlockFn) (cfg : Config) (fuel : Nat) (sys : Sys) (h : KInv sys) :
-    KInv (settle E D cfg fuel sys) := by
+theorem kinv_settle (E D : Spec.Rfc4493.BlockFn) (cfg : Config) (fuel : Nat) (sys : Sys) (h : KInv cfg sys) :
+    KInv cfg (settle E D cfg fuel sys) := by
   induction fuel generalizing sys with
   | zero => exact h
   | succ n ih =>
     unfold settle
     split
     · exact ⟨⟨h.c.upB, h.c.dnB, h.c.upI, h.c.dnI⟩, k_drop_threads dnBook dnBook_ok h.dn sys.fob sys.scheduled,
-             k_drop_threads upBook upBook_ok h.up sys.fob sys.scheduled⟩
+             k_drop_threads upBook upBook_ok h.up sys.fob sys.scheduled,
+             k_drop_threads (jnBook cfg) (jnBook_ok cfg) h.jn sys.fob sys.scheduled⟩
     · exact ih _ (kinv_step E D cfg sys _ false h)
 
 theorem k_spawn (B : Book) (ok : B.Ok) {s : Sys} (hk : K B s) (t : Thread) (ht : B.held t = none) :
@@ -560,38 +674,41 @@ theorem k_spawn (B : Book) (ok : B.Ok) {s : Sys} (hk : K B s) (t : Thread) (ht :
   intro x
   simp [Book.heldAll, List.filterMap_append, ht]
 
-theorem kinv_apply (E D : Spec.Rfc4493.BlockFn) (cfg : Config) (sys : Sys) (ev : Event) (h : KInv sys) :
-    KInv (apply E D cfg sys ev) := by
+theorem kinv_apply (E D : Spec.Rfc4493.BlockFn) (cfg : Config) (sys : Sys) (ev : Event) (h : KInv cfg sys) :
+    KInv cfg (apply E D cfg sys ev) := by
   have hc := cinv_apply E D cfg sys ev h.c
   cases ev with
   | deliver raw gw an na =>
     simp only [apply]
     split
     · rename_i t ht
-      have hshape : (∃ s, t = .join s) ∨ (∃ s, t = .uplink s ∧ s.pc = 0) := by
+      have hshape : (∃ s, t = .join s ∧ s.pc = 0) ∨ (∃ s, t = .uplink s ∧ s.pc = 0) := by
         unfold spawn at ht
         split at ht
         · split at ht
-          · cases ht; exact Or.inl ⟨_, rfl⟩
+          · cases ht; exact Or.inl ⟨_, rfl, rfl⟩
           · cases ht; exact Or.inr ⟨_, rfl, rfl⟩
         · cases ht
-      refine ⟨⟨h.c.upB, h.c.dnB, h.c.upI, h.c.dnI⟩, k_spawn dnBook dnBook_ok h.dn t ?_, k_spawn upBook upBook_ok h.up t ?_⟩
-      · rcases hshape with ⟨s, rfl⟩ | ⟨s, rfl, hs⟩
-        · exact dnBook_ok.join0 s
-        · exact dnBook_ok.up0 s hs
-      · rcases hshape with ⟨s, rfl⟩ | ⟨s, rfl, hs⟩
-        · exact upBook_ok.join0 s
-        · exact upBook_ok.up0 s hs
+      have hnone : ∀ (B : Book), B.Ok → B.held t = none := by
+        intro B ok
+        rcases hshape with ⟨s, rfl, hs⟩ | ⟨s, rfl, hs⟩
+        · exact ok.join0 s hs
+        · exact ok.up0 s hs
+      exact ⟨⟨h.c.upB, h.c.dnB, h.c.upI, h.c.dnI⟩, k_spawn dnBook dnBook_ok h.dn t (hnone _ dnBook_ok),
+             k_spawn upBook upBook_ok h.up t (hnone _ upBook_ok),
+             k_spawn (jnBook cfg) (jnBook_ok cfg) h.jn t (hnone _ (jnBook_ok cfg))⟩
     · exact h
   | submit m =>
     exact ⟨hc, k_mono dnBook h.dn (dnBook_ok.out_db _ _) (dnBook_ok.iss_db _ _) (dnBook_ok.res_db _ _) (fun _ => Nat.le_refl _),
-           k_mono upBook h.up (upBook_ok.out_db _ _) (upBook_ok.iss_db _ _) (upBook_ok.res_db _ _) (fun _ => Nat.le_refl _)⟩
+           k_mono upBook h.up (upBook_ok.out_db _ _) (upBook_ok.iss_db _ _) (upBook_ok.res_db _ _) (fun _ => Nat.le_refl _),
+           k_mono (jnBook cfg) h.jn ((jnBook_ok cfg).out_db _ _) ((jnBook_ok cfg).iss_db _ _) ((jnBook_ok cfg).res_db _ _) (fun _ => Nat.le_refl _)⟩
   | stepT i f => exact kinv_step E D cfg sys i f h
   | quiesce => exact kinv_settle E D cfg 200 sys h
-  | crash => exact ⟨hc, k_drop_threads dnBook dnBook_ok h.dn [] [], k_drop_threads upBook upBook_ok h.up [] []⟩
+  | crash => exact ⟨hc, k_drop_threads dnBook dnBook_ok h.dn [] [], k_drop_threads upBook upBook_ok h.up [] [],
+                    k_drop_threads (jnBook cfg) (jnBook_ok cfg) h.jn [] []⟩
 
-theorem kinv_run (E D : Spec.Rfc4493.BlockFn) (cfg : Config) (sys : Sys) (evs : List Event) (h : KInv sys) :
-    KInv (run E D cfg sys evs) := by
+theorem kinv_run (E D : Spec.Rfc4493.BlockFn) (cfg : Config) (sys : Sys) (evs : List Event) (h : KInv cfg sys) :
+    KInv cfg (run E D cfg sys evs) := by
   induction evs generalizing sys with
   | nil => exact h
   | cons ev rest ih => exact ih _ (kinv_apply E D cfg sys ev h)
